@@ -137,6 +137,12 @@ def _check_seq(acc, case, flat, rows, cols, ra):
     steps += [("col_counts", lambda: ra.col_counts(), counts), ("tolist", lambda: np.array([len(r) for r in ra.tolist()]), ("A", (len(rows),), tuple(lens)))]
     steps += [(f"col{j} after tolist", lambda j=j: ra.get_column_values(j), colv(j)) for j in range(m)]
     steps += [("sum0 again", lambda: np.sum(ra, axis=0), sums)]
+    means = ("A", (m,), tuple(pyval(sum(c)) / len(c) for c in cols))
+    if dt == "int64":
+        # exact in float64 for these small integers; the FIRST thing asked of a second, equal object
+        ra2 = big[:0:-1] if op == "seq_view" else RaggedArray(flat.copy(), list(lens))
+        steps = [("mean0 first", lambda: ra2.mean(axis=0), means), ("col_counts after mean", lambda: ra2.col_counts(), counts)] + steps + \
+                [("mean0", lambda: ra.mean(axis=0), means)]
     for name, f, exp in steps:
         o = attempt(lambda: (lambda a: ("A", tuple(a.shape), tuple(pyval(x) for x in a.ravel())))(np.asarray(f())))
         acc.trans()
